@@ -65,6 +65,11 @@ class G8:
             src, ln_ = r.choice(self.int_arrays)
             st = [decl(arr('int'), name, V(src), True)]
             self.int_arrays.append((name, ln_))
+        elif c == 5 and r.random() < 0.5:
+            # stack-allocated bool literal (a non-constant element keeps it on the stack)
+            ln_ = r.choice((2, 3, 5, 9))
+            elems = tuple([bin_('>=', V(self.loop_var), I(0))] + [B(k % 2 == 0) for k in range(ln_ - 1)])
+            st = [decl(arr('bool'), name, ('arr', elems), True), write(idx(name, I(ln_ - 1)))]
         else:
             ln_ = r.choice((1, 3, 6))
             st = [decl(arr('byte'), name, ('arr', tuple(I((k * 37 + 1) & 0xFF) for k in range(ln_))), True),
@@ -134,7 +139,16 @@ class G8:
         body = [write(C('t'))] + self.alloc()
         if self.int_arrays:
             a, _ = self.int_arrays[-1]
-            body += [ex(call('!boom', bin_('%', bin_('+', V(self.loop_var), V('sel')), I(self.M)), V(a)))]
+            bc = call('!boom', bin_('%', bin_('+', V(self.loop_var), V('sel')), I(self.M)), V(a))
+            k = r.randrange(4)
+            if k == 0:
+                body += [ex(bc)]
+            elif k == 1:
+                body += [aug('+', 'acc', bc)]             # defeat function called in expression position
+            elif k == 2:
+                body += [decl('int', self.nm('v'), bc)]
+            else:
+                body += [if_(bin_('>', bc, I(0)), block(write(C('p'))))]
         body += self.scope(depth, allowed_exits, in_try=True)
         if r.random() < 0.4:
             body += [ex(call('!truth_is_defeat', bin_('==', bin_('%', bin_('+', V(self.loop_var), V('sel')), I(self.M)), I(0))))]
@@ -149,14 +163,14 @@ class G8:
         r = self.rnd
         self.helper_ready = False
         # defeat function that allocates before (maybe) reaching defeat, also from depth 2
-        boom = func('empty', '!boom', [('int', 'n'), (arr('int'), 'pa')],
+        boom = func('int', '!boom', [('int', 'n'), (arr('int'), 'pa')],
                     decl(arr('int'), 'tb', ('arr', (V('n'), I(1), I(2))), True),
                     dyn('byte', 'db', I(r.choice((1, 3, 5)))),
                     write(C('b')),
-                    if_(bin_('>', V('n'), I(r.choice((0, 1)))), block(ex(call('!boom', bin_('-', V('n'), I(2)), V('tb'))))),
+                    if_(bin_('>', V('n'), I(r.choice((0, 1)))), block(setv(idx('tb', I(1)), call('!boom', bin_('-', V('n'), I(2)), V('tb'))))),
                     write(idx('pa', I(0))),
                     ex(call('!truth_is_defeat', bin_('==', bin_('%', V('n'), I(self.M)), I(r.randrange(self.M))))),
-                    write(C('B')))
+                    write(C('B')), ret(bin_('+', V('n'), idx('tb', I(1)))))
         # helper with early returns from nested blocks
         self.in_you = False
         self.loop_var = 'n'
